@@ -169,6 +169,13 @@ Record gsession := mkGSession {
   <g_id; g_token; g_refresh; g_last_exp; g_expires; g_code; g_type; g_subject; g_client;
    g_active; g_granted; g_jkt; g_x5t; g_active_res; g_granted_res>.
 
+(* ShouldIssueRefreshTokenFunc: the embedder's function (client, grant info) -> bool.  The harness
+   installs one of these; they are the shapes the library's documentation and examples use, and the
+   last two are NOT constant over the life of a grant (a refresh changes the grant type to
+   refresh_token and may narrow the active scopes). *)
+Inductive issue_pol := IssueNever (* no function set *) | IssueAlways
+  | IssueIfOffline (* offline_access among the ACTIVE scopes *) | IssueCodeOnly (* grant type authorization_code *).
+
 (* The configuration: the fields of oidc.Configuration the modelled handlers read. *)
 Record config := mkConfig {
   cf_profile : profile;
@@ -179,7 +186,7 @@ Record config := mkConfig {
   cf_openid_required : bool;
   cf_session_timeout : Z;
   cf_token_lifetime : Z;            (* what the harness's TokenOptionsFunc answers *)
-  cf_issue_refresh : bool;          (* ShouldIssueRefreshTokenFunc set (harness: always true) *)
+  cf_issue_refresh : issue_pol;     (* ShouldIssueRefreshTokenFunc *)
   cf_refresh_rotation : bool;
   cf_refresh_lifetime : Z;
   cf_pkce_enabled : bool;
